@@ -663,6 +663,25 @@ func (w *WAL) Sync() error {
 	return w.syncLocked()
 }
 
+// Flush writes the buffered entries to the log file without syncing it. Unlike
+// Sync it also works on a WAL that is marked as rotating: the storage manager
+// calls it before it publishes the next WAL, so that no later entry can reach
+// the disk ahead of entries that were acknowledged earlier.
+func (w *WAL) Flush() error {
+	w.mu.Lock()
+	defer w.mu.Unlock()
+
+	if atomic.LoadInt32(&w.status) == WALStatusClosed {
+		return ErrWALClosed
+	}
+
+	if err := w.writer.Flush(); err != nil {
+		return fmt.Errorf("failed to flush WAL buffer: %w", err)
+	}
+
+	return nil
+}
+
 // AppendBatch adds a batch of entries to the WAL atomically
 func (w *WAL) AppendBatch(entries []*Entry) (uint64, error) {
 	w.mu.Lock()
